@@ -7,7 +7,10 @@ from oracle import refptr, refvisit
 from checks.c12 import gen_tree
 
 PID = "C17"
-CODES = [refvisit.CONTINUE] * 7 + [refvisit.SKIP, refvisit.POP, refvisit.STOP, refvisit.ERROR, 1, -2, 12345]
+VALID = [refvisit.CONTINUE, refvisit.SKIP, refvisit.POP, refvisit.STOP]
+# invalid codes: small ones and ones that coincide with a valid code in their low 16 bits / after sign or byte truncation
+ALIASES = [c + k * 65536 for c in VALID for k in (1, -1, 3)] + [c | 0x40000000 for c in VALID] + [-c for c in VALID if c] + [c + 256 for c in VALID] + [0xFFFF, 0x10000 - 1 + 0x10000, -65537]
+CODES = [refvisit.CONTINUE] * 7 + [refvisit.SKIP, refvisit.POP, refvisit.STOP, refvisit.ERROR, 1, -2, 12345] + [None]
 
 
 def shard_fn(shard, nshards, seed, tier, exe, npairs):
@@ -37,16 +40,21 @@ def shard_fn(shard, nshards, seed, tier, exe, npairs):
             m = rng.random()
             if m < 0.3:
                 sched = [rng.choice(CODES) for _ in range(n)]
+                sched = [rng.choice(ALIASES) if c is None else c for c in sched]
             elif m < 0.6:
                 # mostly CONTINUE with a single interesting code at a random call
                 sched = [0] * n
                 if n:
-                    sched[rng.randrange(n)] = rng.choice([refvisit.SKIP, refvisit.POP, refvisit.STOP, refvisit.ERROR, 99])
+                    sched[rng.randrange(n)] = rng.choice([refvisit.SKIP, refvisit.POP, refvisit.STOP, refvisit.ERROR, 99, rng.choice(ALIASES)])
             else:
                 sched = [rng.choice([0, 0, 0, refvisit.SKIP, refvisit.POP]) for _ in range(n)]
             default = rng.choice([0, 0, 0, refvisit.SKIP, refvisit.POP, refvisit.STOP])
             scheds.append((sched, default))
-            cmds.append("VISIT 0 %d %s" % (default, " ".join(str(x) for x in sched)))
+            # a fifth of the schedules have callbacks that run a nested json_c_visit on another tree (ending in an error, or normally) before they return
+            nest = rng.random() < 0.2
+            cmds.append("VISIT 0 %d %s" % (default, " ".join((rng.choice(["N", "M", "", ""]) if nest else "") + str(x) for x in sched)))
+            if nest:
+                sh.count("schedules_with_nested_visits")
             i += 1
         cmds.append("PUT 0")
         cid = "%d.%d" % (shard, i)
